@@ -13,6 +13,33 @@ NOT_DECIDED = 'geometry of the collision queries (C10)'
 ASSUMPTIONS = ['the initial configuration is collision free (precondition of the API): pairs of two unmoved bodies need no re-check']
 
 
+def _skip_shape(sk):
+    """skip == (0..k).collect() or (0..k).chain([consts]).collect(), k the moved joint of the task -> (set of extra members, recognised?)"""
+    sk = strip(sk)
+    if not (isinstance(sk, tuple) and sk[0] == 'call' and cname(sk[1]).endswith('::collect')):
+        return None, False
+    it = strip(sk[2])
+    extras = set()
+    while isinstance(it, tuple) and it[0] == 'call' and cname(it[1]).split('::')[-1] in ('chain', 'into_iter'):
+        if cname(it[1]).split('::')[-1] == 'chain':
+            other = strip(it[3])
+            while isinstance(other, tuple) and other[0] == 'call' and cname(other[1]).split('::')[-1] in ('into_iter', 'iter', 'copied', 'cloned'):
+                other = strip(other[2])
+            if not (isinstance(other, tuple) and other[0] == 'agg' and other[1] == 'array'):
+                return None, False
+            for e in other[2:]:
+                v = util.const_val(e)
+                if not isinstance(v, int):
+                    return None, False
+                extras.add(v)
+        it = strip(it[2])
+    if isinstance(it, tuple) and it[0] == 'agg' and str(it[1]).endswith('Range'):
+        k_t = strip(it[3])
+        ok = util.const_val(it[2]) == 0 and isinstance(k_t, tuple) and k_t[0] == 'fld' and k_t[2] == '0' and util.is_param(k_t[1], 2)
+        return extras, ok
+    return None, False
+
+
 def run(ctx):
     prog = ctx.prog
     ctx.rule('R14.1', 'candidates = initial with slot k := target[k], k in 0..6, target in {from, to}')
@@ -108,14 +135,14 @@ def run(ctx):
     ctx.check('self' in s and s.endswith('.safety'), 'R14.4', 'safety-table', c.where(bi), c.path, 'the body\'s own safety table must be used', found=s)
     ctx.check('FirstCollisionOnly' in show(byty['mode'], maxdepth=5), 'R14.4', 'mode', c.where(bi), c.path, 'first-collision mode must be forced', found=show(byty['mode'], maxdepth=5))
     sk = byty['skip']
-    sk_ok = False
-    if isinstance(sk, tuple) and sk[0] == 'call' and cname(sk[1]).endswith('::collect'):
-        r = util.range_of(sk[2]) if isinstance(sk[2], tuple) else None
-        rng = strip(sk[2])
-        if isinstance(rng, tuple) and rng[0] == 'agg' and rng[1].endswith('Range'):
-            k_t = strip(rng[3])
-            sk_ok = util.const_val(rng[2]) == 0 and isinstance(k_t, tuple) and k_t[0] == 'fld' and k_t[2] == '0' and util.is_param(k_t[1], 2)
-    ctx.check(sk_ok, 'R14.3', 'skip-set', c.where(bi), c.path, 'the skip set must be exactly the joints before the moved one (0..k)', found=show(sk, maxdepth=5), detail='skip = (0..k).collect()')
+    extras, sk_ok = _skip_shape(sk)
+    # members other than the joints before the moved one may only be bodies that never move (the base, environment objects)
+    moved_extra = sorted(x for x in (extras or ()) if x <= 5 or x == cm.J_TOOL)
+    ctx.check(sk_ok and not moved_extra, 'R14.3', 'skip-set', c.where(bi), c.path,
+              'the skip set must be the joints before the moved one (0..k), plus at most bodies that never move' +
+              ('' if sk_ok else ': unrecognised construction') + (': it names a moved body %s' % moved_extra if moved_extra else ''),
+              found=show(sk, maxdepth=6), detail='skip = (0..k)%s' % (' + %s' % sorted(extras) if extras else ''))
+    extras = frozenset(extras or ())
     # poses of the candidate
     ps = show(byty['poses'], maxdepth=6)
     ctx.check('forward_with_joint_poses' in ps and c.name_of(arr[0]) in ps if arr else False, 'R14.4', 'poses', c.where(bi), c.path,
@@ -125,7 +152,11 @@ def run(ctx):
     for tt, d, rb in c.return_values():
         tt = strip(tt)
         gs = [(strip(g), opw.truth(k)) for g, k, sw in c.guard_terms(d[1])]
-        emp = [v for g, v in gs if isinstance(g, tuple) and g[0] == 'call' and cname(g[1]) == 'Vec::is_empty' and enum_b.path.split('::')[-1] in show(g, maxdepth=4)]
+        emp = []
+        for g, v in gs:
+            eg = util.emptiness_guard(g, v)
+            if eg is not None and enum_b.path.split('::')[-1] in show(eg[0], maxdepth=4):
+                emp.append(eg[1])
         if isinstance(tt, tuple) and tt[0] == 'agg' and 'Some' in tt[1] and emp == [True]:
             some_ok = arr and c.name_of(arr[0]) in show(tt)
         if isinstance(tt, tuple) and tt[0] == 'agg' and 'None' in tt[1] and emp == [False]:
@@ -141,7 +172,7 @@ def run(ctx):
     for k in range(6):
         for tool in (True, False):
             for base in (True, False):
-                ex = C10.extract(ctx, enum_b, tool=tool, base=base, n_env=2, skip=frozenset(range(k)))
+                ex = C10.extract(ctx, enum_b, tool=tool, base=base, n_env=2, skip=frozenset(range(k)) | extras)
                 got = set(ex.pairs())
                 spec = cm.spec_pairs(tool, base, 2)
                 moved = set(range(k, 6)) | {cm.J_TOOL}
